@@ -711,6 +711,8 @@ class Ev:
         return NotImplemented
 
     def lib_attr(self, full, node=None, mod=None):
+        if full in getattr(self, "ext_values", {}):
+            return self.ext_values[full]            # a rule's stand-in for a library-level object (e.g. qha's DEFAULT_SETTINGS)
         if full in ("numpy.newaxis",):
             return None
         if full == "numpy.pi" or full == "math.pi":
